@@ -1,6 +1,124 @@
 package verifsim
 
-// FullHub holds the job / web / security layers of a hub-level instance.
-type FullHub struct{}
+import (
+	"encoding/json"
+	"fmt"
+	"testing/synctest"
+	"time"
 
-func (f *FullHub) stop() {}
+	"github.com/DataDog/datadog-go/v5/statsd"
+
+	"github.com/mimiro-io/datahub/internal/conf"
+	"github.com/mimiro-io/datahub/internal/jobs"
+	"github.com/mimiro-io/datahub/internal/server"
+)
+
+// FullHub holds the job layer (and, for web profiles, the HTTP and security layers) of a hub.
+type FullHub struct {
+	Bus    server.EventBus
+	Runner *jobs.Runner
+	Sched  *jobs.Scheduler
+	Web    *webLayer
+}
+
+func (f *FullHub) stop() {
+	if f.Runner != nil {
+		func() {
+			defer func() { _ = recover() }()
+			f.Runner.Stop()
+		}()
+	}
+}
+
+// OpenJobsHub opens a hub with the real event bus, job runner and scheduler.
+func OpenJobsHub(dir string, knobs map[string]int64) (h *Hub, err error) {
+	defer func() {
+		if r := recover(); r != nil {
+			err = fmt.Errorf("open panicked: %v", r)
+		}
+	}()
+	env := newEnv(dir, knobs)
+	env.RunnerConfig = &conf.RunnerConfig{PoolIncremental: int(knobOr(knobs, "poolIncr", 4)), PoolFull: int(knobOr(knobs, "poolFull", 2)), Concurrent: 1}
+	h = &Hub{Dir: dir, Env: env, Full: &FullHub{}}
+	h.Full.Bus, err = server.NewBus(env)
+	if err != nil {
+		return nil, err
+	}
+	h.Store = server.NewStore(env, &statsd.NoOpClient{})
+	h.Dsm = server.NewDsManager(env, h.Store, h.Full.Bus)
+	h.PfxE, err = h.Store.NamespaceManager.AssertPrefixMappingForExpansion(ExE)
+	if err != nil {
+		return nil, err
+	}
+	h.PfxS, err = h.Store.NamespaceManager.AssertPrefixMappingForExpansion(ExS)
+	if err != nil {
+		return nil, err
+	}
+	h.Full.Runner = jobs.NewRunner(env, h.Store, nil, h.Full.Bus, &statsd.NoOpClient{})
+	h.Full.Sched = jobs.NewScheduler(env, h.Store, h.Dsm, h.Full.Runner)
+	return h, nil
+}
+
+func knobOr(k map[string]int64, name string, def int64) int64 {
+	if v, ok := k[name]; ok {
+		return v
+	}
+	return def
+}
+
+// AddJobJSON registers a job from its JSON configuration (as POST /jobs does).
+func (h *Hub) AddJobJSON(cfg map[string]any) error {
+	b, err := json.Marshal(cfg)
+	if err != nil {
+		return err
+	}
+	jc, err := h.Full.Sched.Parse(b)
+	if err != nil {
+		return err
+	}
+	return h.Full.Sched.AddJob(jc)
+}
+
+// RunJobToEnd starts a job as PUT /job/:id/run does and lets the fake clock run until it has
+// ended. It returns false if the job is still running after the simulated time limit.
+func (h *Hub) RunJobToEnd(id, jobType string, limit time.Duration) (started bool, ended bool, err error) {
+	_, err = h.Full.Sched.RunJob(id, jobType)
+	if err != nil {
+		return false, false, err
+	}
+	return true, h.WaitJobsIdle(limit), nil
+}
+
+// WaitJobsIdle lets simulated time pass until no job is running.
+func (h *Hub) WaitJobsIdle(limit time.Duration) bool {
+	deadline := time.Now().Add(limit)
+	for {
+		synctest.Wait()
+		if len(h.Full.Sched.GetRunningJobs()) == 0 {
+			// let goroutines that were just released (retry timers, event handlers) settle
+			synctest.Wait()
+			if len(h.Full.Sched.GetRunningJobs()) == 0 {
+				return true
+			}
+		}
+		if time.Now().After(deadline) {
+			return false
+		}
+		time.Sleep(time.Millisecond)
+	}
+}
+
+// LastResult returns the stored outcome of the last run of a job (nil if none).
+func (h *Hub) LastResult(id string) map[string]any {
+	for _, r := range h.Full.Sched.GetJobHistory() {
+		b, _ := json.Marshal(r)
+		var m map[string]any
+		_ = json.Unmarshal(b, &m)
+		if m["id"] == id {
+			return m
+		}
+	}
+	return nil
+}
+
+type webLayer struct{}
